@@ -133,6 +133,8 @@ auto __redu_floordiv(A a, B b) -> decltype(a / b) {
   R r = x - q * y;
   if (r != 0 && ((r < 0) != (y < 0))) {
     q -= 1;
+  } else if (q == 0 && ((x < 0) != (y < 0))) {
+    q = -q;  // a float zero takes the sign of the quotient, as in Python
   }
   return q;
 }
@@ -145,6 +147,8 @@ auto __redu_mod(A a, B b) -> decltype(a / b) {
   R r = x - static_cast<R>(static_cast<long>(x / y)) * y;
   if (r != 0 && ((r < 0) != (y < 0))) {
     r += y;
+  } else if (r == 0 && y < 0) {
+    r = -r;  // a float zero remainder takes the sign of the divisor, as in Python
   }
   return r;
 }
